@@ -63,6 +63,10 @@ FAILS = [("error", 5), ("div", 5), ("index", 3), ("longexpr", 3), ("longarr", 2)
          ("funlit2", 2), ("funlitml", 2)]
 CALLS = [("ret", 8), ("assign", 3), ("funlit", 3), ("funlit2", 2), ("funlitml", 2), ("catch", 2), ("multi", 2)]
 CALLS_PLAIN = [("ret", 8), ("assign", 3), ("catch", 2), ("multi", 2)]
+# calls of a function of the same object that do not go through a local call instruction: apply_low (call_other,
+# also from a simul_efun and through efun / simul_efun pointers) and function pointers to the local function
+CALLS_LOCALNAME = [("co_self", 4), ("co_arrow", 2), ("simul", 3), ("fp_local", 3), ("fp_efun", 2), ("fp_simul", 2)]
+SIMUL_PROG, SIMUL_OBJ, SIMUL_LINE = "c18/simul_efun.c", "/c18/simul_efun", 4
 
 
 class Gen:
@@ -95,6 +99,26 @@ class Gen:
         call = nxt if callable(nxt) else (lambda a: "%s(%s)" % (nxt, a))
         kinds = CALLS if not (isinstance(nxt, str) and nxt.startswith("::")) else CALLS_PLAIN
         kind = r.weighted(kinds)
+        if isinstance(nxt, str) and not nxt.startswith("::") and not oneline and r.chance(2, 5):
+            # the next function is reached through apply_low / a function pointer instead of a local call
+            kind = r.weighted(CALLS_LOCALNAME)
+            expr = {"co_self": 'call_other(this_object(), "%s", k)' % nxt,
+                    "co_arrow": 'this_object()->%s(k)' % nxt,
+                    "simul": 'c18_via(this_object(), "%s", k)' % nxt,
+                    "fp_local": 'evaluate((: %s :), k)' % nxt,
+                    "fp_efun": 'evaluate((: call_other :), this_object(), "%s", k)' % nxt,
+                    "fp_simul": 'evaluate((: c18_via :), this_object(), "%s", k)' % nxt}[kind]
+            src.text("int %s(int k) {\n" % name)
+            src.pad("s", r.weighted(FILL))
+            lo = src.line
+            src.text("  return %s + 1;\n" % expr)
+            frames.append((name, prog, obj, src.name, lo, lo))
+            if kind in ("simul", "fp_simul"):
+                frames.append(("c18_via", SIMUL_PROG, SIMUL_OBJ, SIMUL_PROG, SIMUL_LINE, SIMUL_LINE))
+            src.pad("s", r.weighted(FILL))
+            src.text("  return x_;\n}\n")
+            self.meta.setdefault("calls", []).append(kind)
+            return False
         if oneline:
             # the whole function on ONE line (used for the last line of a file)
             kind = r.choice(["ret", "assign", "catch"] + ([] if kinds is CALLS_PLAIN else ["funlit"]))
@@ -289,7 +313,7 @@ class Gen:
         return files, caught, err
 
     def build(self, fail_kind=None, depth=None, bdepth=None, nchild=None, nbase=None, binary=None, fail_slot=None,
-              prepad=None, kind="plain", other=None, override=None, tails=None, btails=None):
+              prepad=None, kind="plain", other=None, override=None, tails=None, btails=None, via=None, rep=None):
         """chain of calls: child functions (object m) -> [child's override b1 calling ::b1] -> inherited functions, or
         child functions -> call_other into object `other` -> its functions -> [functions other inherits]"""
         r = self.rng
@@ -312,14 +336,30 @@ class Gen:
         caught = False
         allfiles = []
 
-        def head_for(fns, inh):
+        via = r.weighted([("apply", 6), ("reset", 1), ("hb", 1), ("callout", 1), ("clone", 1)]) if via is None else via
+        rep = r.weighted([(1, 2), (2, 5), (3, 2)]) if rep is None else rep
+        wrap = {}
+
+        def head_for(fns, inh, wrappers=False):
             h = pragma + (('inherit "%s/base";\n' % d) if inh else "int x_;\n")
-            return h + "void set_oid(string s) {}\n" + "".join("int %s(int k);\n" % f for f in fns)
+            h += "void set_oid(string s) {}\n" + "".join("int %s(int k);\n" % f for f in fns)
+            if wrappers:
+                # frames the driver creates itself: create() of a clone, reset(), heart_beat(), a call_out
+                h += "int arm_;\nint go(int k);\n"
+                n = h.count("\n") + 1
+                h += ("void arm(mixed a) { a = to_int(a); arm_ = a; if (a == 3) set_heart_beat(1); if (a == 4) { call_out(\"later\", 1); call_out(\"later\", 1); } }\n"
+                      "void create() { if (clonep(this_object())) go(0); }\n"
+                      "void reset() { if (arm_ == 2) go(0); }\n"
+                      "void heart_beat() { if (arm_ == 3) go(0); }\n"
+                      "void later() { go(0); }\n")
+                wrap.update({"clone": ("create", n + 1), "reset": ("reset", n + 2), "hb": ("heart_beat", n + 3),
+                             "callout": ("later", n + 4)})
+            return h
 
         if other:
             nxt_child = (lambda a: '"%s"->%s(%s)' % (oobj, of[0], a)) if r.chance(1, 2) else \
                         (lambda a: 'call_other("%s", "%s", %s)' % (oobj, of[0], a))
-            files, c1, _ = self.program("%s/m.c" % d, cf, nxt_child, (cprog, cobj), frames, head_for(cf[1:], False),
+            files, c1, _ = self.program("%s/m.c" % d, cf, nxt_child, (cprog, cobj), frames, head_for(cf[1:], False, True),
                                         depth, fail_kind, None, prepad, tails)
             ofiles, c2, _ = self.program("%s/other.c" % d, of, bf[0] if bf else None, (oprog, oobj), frames,
                                          head_for(of[1:], inherit), r.weighted([(0, 3), (1, 2)]), fail_kind,
@@ -331,7 +371,7 @@ class Gen:
             cfn = cf + ([bf[0]] if override else [])
             nxt_child = ("::" + bf[0]) if override else (bf[0] if bf else None)
             files, caught, _ = self.program("%s/m.c" % d, cfn, nxt_child, (cprog, cobj), frames,
-                                            head_for(cfn[1:], inherit), depth, fail_kind, None if bf else fail_slot, prepad,
+                                            head_for(cfn[1:], inherit, True), depth, fail_kind, None if bf else fail_slot, prepad,
                                             tails)
             allfiles = list(files)
             run_obj = cobj
@@ -342,19 +382,35 @@ class Gen:
                                          fail_slot, None, btails)
             allfiles = bfiles + allfiles
             caught = caught or c3
-        # `go` is called without arguments: k = 0 everywhere
+        # `go` is called without arguments: k = 0 everywhere.  The whole scenario runs `rep` times in the same driver
+        # (the first run fills the apply cache, the later ones create their frames through the cache-hit path) and is
+        # started by a plain apply or by the driver itself (reset, heart beat, call_out, create of a clone)
+        if via != "apply":
+            wname, wline = wrap[via]
+            wobj = cobj + "#*" if via == "clone" else cobj
+            frames = [(wname, cprog, wobj, cprog, wline, wline)] + \
+                [(f[0], f[1], wobj if f[2] == cobj else f[2]) + f[3:] for f in frames]
         last = frames[-1]
         exp = "expect kind=%s file=%s lines=%d-%d program=%s object=%s trace=%s" % (
             kind, last[3], last[4], last[5], last[1], last[2],
             "|".join("%s@%s@%s@%s@%d-%d" % f for f in frames))
+        if via == "callout":
+            rep = 2
+        trig = {"apply": ["apply o1 go", exp] * rep,
+                "reset": ["vapply o1 arm 2"] + ["reset o1", exp] * rep,
+                "hb": ["vapply o1 arm 3", "tick 1", exp] * rep,
+                "callout": ["vapply o1 arm 4", "tick 2", exp, exp],
+                "clone": ["clone o5 %s/m" % d, exp] * rep}[via]
         lines = [s.cmd() for s in allfiles]
         loads = (["load o3 %s/base" % d] if inherit else []) + (["load o2 %s/other" % d] if other else []) + \
             ["load o1 %s/m" % d]
-        lines += loads + ["apply o1 go", "dump o1"] + (["dump o2"] if other else []) + [exp]
+        dumps = ["dump o1"] + (["dump o2"] if other else [])
+        lines += loads + trig + dumps
         if binary:
             # every program of the family is dropped and comes back from its saved binary
             lines += ["unload o1"] + (["unload o2"] if other else []) + (["unload o3"] if inherit else [])
-            lines += loads + ["apply o1 go", "dump o1"] + (["dump o2"] if other else []) + [exp]
+            lines += loads + trig + dumps
+        self.meta.update({"via": via, "rep": rep})
         self.meta.update({"depth": depth, "inherit": inherit, "binary": binary, "caught": caught, "other": bool(other),
                           "override": bool(override), "maxline": max(s.line for s in allfiles)})
         return lines
@@ -374,6 +430,18 @@ def case_init(tag, pad=3, funcs=0):
     exp = "expect kind=plain phase=load file=%s lines=%d-%d program=%s object=%s trace=#global_init#@%s@%s@%s@%d-%d" % (
         p, ln, ln, p, o, p, o, p, ln, ln)
     return [m.cmd(), "load o1 %s/m" % d, exp]
+
+
+def case_init_pair(tag, pad=3):
+    """two programs compiled one after the other whose only initialisers are on the SAME line: the line bookkeeping of
+    the initialiser block must start afresh for every compilation"""
+    d = "/c18/%s" % tag
+    a = Src("%s/a.c" % d)
+    a.text("int x_;\nint y_;\nvoid set_oid(string s) {}\n")
+    a.pad("n", pad)
+    a.text("int a_ = 7 + x_;\n")
+    lines = case_init(tag, pad=pad, funcs=0)
+    return [a.cmd(), lines[0], "load o4 %s/a" % d] + lines[1:]
 
 
 def case_reinclude(tag, first_ok=False):
@@ -473,12 +541,13 @@ def case_multi_include(tag, variant, rng=None):
 class C18(Prop):
     id = "C18"
     title = "Runtime errors are reported at the right file and line with a correct trace"
-    lean_modules = ["NV.C18.Props", "NV.C18.Witness"]
+    lean_modules = ["NV.C18.Props", "NV.C18.Witness", "NV.C18.SourceTexts"]
     theorems = ["NV.C18.line_roundtrip_raw", "NV.C18.line_roundtrip", "NV.C18.long_statement_ok",
                 "NV.C18.file_roundtrip", "NV.C18.file_roundtrip_ids", "NV.C18.file_roundtrip_partial",
                 "NV.C18.fresh_idsOf", "NV.C18.trace_order",
                 "NV.C18.runEms_li", "NV.C18.translateAbs_at", "NV.C18.widths_agree",
-                "NV.C18.pass1Continues_iff", "NV.C18.scanContinues_iff", "NV.C18.split_agrees"]
+                "NV.C18.pass1Continues_iff", "NV.C18.scanContinues_iff", "NV.C18.split_agrees",
+                "NV.C18.apply_paths_store_table_index", "NV.C18.apply_frame_named", "NV.C18.source_statements_agree"]
     witness_theorems = ["NV.C18.file_roundtrip_Full_false", "NV.C18.line_roundtrip_Full_false",
                         "NV.C18.reinclude_wrong", "NV.C18.reinclude_repaired", "NV.C18.wide_wrong", "NV.C18.signed_short_wrong",
                         "NV.C18.init_block_only_noted", "NV.C18.init_replay"]
@@ -517,7 +586,12 @@ class C18(Prop):
             "literal, multi-line and long statements, saved binary) + seeded random program families (1-4 child "
             "functions, 0-3 inherited functions, include depth 0-3 each, call styles return/assign/function "
             "literal/catch/multi-line, 8 failing statement kinds, paddings of 0..63000 blank/comment lines and 0..200 "
-            "filler statements, #pragma save_binary reload); a case is non-trivial when its trace has >= 2 lines; "
+            "filler statements, #pragma save_binary reload of every program of the family; every scenario runs 1-3 times in "
+            "one driver (apply cache miss and hit paths) and is started by an apply, reset_object, a heart beat, a call_out "
+            "or create() of a clone; next function reached by local call, ::, call_other, ->, simul_efun, function "
+            "pointers (literal, nested, multi-line, local function, efun, simul_efun), another object; files end with / "
+            "without newline, blank lines, code on the last line, one-line includes; headers included repeatedly / "
+            "recursively; global initialisers); a case is non-trivial when its trace has >= 2 lines; "
             "distinct = distinct canonical implementation trace")
     not_covered = ["which source line the parser attributes to a parse node (LALR look-ahead may move it inside the "
                    "statement; the oracle accepts any line of the statement's extent)",
@@ -547,6 +621,55 @@ class C18(Prop):
             return "¬ (a %s b)" % self.LEAN_OP[m.group(1)], m.group(0)
         raise X.TieBroken(site, "loop guard over %s and %s no longer has a known shape" % (lhs, rhs))
 
+    @staticmethod
+    def _lines(text, start, end, keep=None, site="?"):
+        """normalised source lines of the region start..end (markers included): hook blocks and comments removed,
+        braces dropped, trailing `;` stripped; `keep` = regex a line must match"""
+        i = text.find(start)
+        j = text.find(end, i + 1) if i >= 0 else -1
+        if i < 0 or j < 0:
+            raise X.TieBroken(site, "region %r .. %r not found" % (start, end))
+        reg = text[i:j + len(end)]
+        reg = re.sub(r"(?s)#ifdef NEOLITH_VERIF.*?#endif", "", reg)
+        reg = re.sub(r"(?s)/\*.*?\*/", "", reg)
+        out = []
+        for ln in reg.split("\n"):
+            ln = re.sub(r"//.*$", "", ln)
+            ln = re.sub(r"\s+", " ", ln).strip().rstrip(";").strip()
+            if ln in ("", "{", "}") or ln.startswith("#"):
+                continue
+            if keep and not re.search(keep, ln):
+                continue
+            out.append(ln)
+        return out
+
+    def source_statements(self):
+        """the hand-modelled statements of the anchor code, as they are in the source now (-> Gen, compared with the
+        texts the model was written from by the obligation `source_statements_agree`)"""
+        R = lambda *p: open(os.path.join(E.REPO, *p)).read()
+        lex, icode, prog, sim, comp, pt = (R("lib/lpc/lex.c"), R("lib/lpc/program/icode.c"), R("lib/lpc/program.c"),
+                                           R("src/simulate.c"), R("lib/lpc/compiler.c"), R("lib/lpc/program/parse_trees.c"))
+        L = self._lines
+        k = r"current_line|save_file_info|current_file_id|is->line|is->file_id"
+        return [
+            ("srcIncludeDirective", L(lex, 'if (!strcmp ("include", yytext))', "handle_include (arg, 0);", r"current_line|handle_include", "lex:include-directive")),
+            ("srcHandleInclude", L(lex, "is->yyin_desc = yyin_desc;", "yyin_desc = fd;", k, "lex:handle_include")),
+            ("srcIncludePop", L(lex, "close (yyin_desc);", "incnum--;", k + r"|p->line|p->file_id", "lex:include-pop")),
+            ("srcFinalProgram", L(icode, "i_generate_final_program (int x)", "generate line numbers for the end */", r"save_file_info|switch_to_line", "icode:final")),
+            ("srcNodeLine", sorted(set(L(pt, "parse_node_t* new_node ()", "get a new node to add to the tree, but", r"->line =", "parse_trees:new_node")))),
+            ("srcInitParser", L(icode, "\ni_initialize_parser ()", "last_size_generated = 0;\n  init_line_being_generated = 0;", r"_generated", "icode:i_initialize_parser")),
+            ("srcSwitchToLine", L(icode, "static void switch_to_line (int line) {", "\n  line_being_generated = line;", None, "icode:switch_to_line")),
+            ("srcGenerateNodeLine", L(icode, "void i_generate_node (parse_node_t * expr) {", "switch (expr->kind)", r"line", "icode:i_generate_node")),
+            ("srcPlaceInit", L(icode, "i_generate___INIT ()", "prog_code = mem_block[A_PROGRAM].block + mem_block[A_PROGRAM].current_size;", None, "icode:__INIT")),
+            ("srcSaveFileInfo", L(comp, "void save_file_info (int file_id, int lines) {", "add_to_mem_block (A_FILE_INFO", r"fi\[|add_to_mem_block", "compiler:save_file_info")),
+            ("srcProgramFileId", L(comp, "static int program_file_id (const char *name, int top) {", "return file_id;", None, "compiler:program_file_id")),
+            ("srcTranslate", L(prog, "int translate_absolute_line (", "return 0;", None, "program:translate_absolute_line")),
+            ("srcFindLine", L(sim, "static int find_line (", "return 4;\n}", None, "simulate:find_line")),
+            ("srcTraceFrames", L(sim, "array_t* get_svalue_trace (int how) {", "return v;", r"add_mapping_(string|object|pair) \(m|get_trace_details|line_number_info|framekind|for \(p|allocate_empty_array \(\(csp", "simulate:get_svalue_trace")),
+            ("srcErrorMapping", L(R("src/error_context.c"), "static void mudlib_error_handler (", "push_refed_mapping (m);", r"add_mapping|get_line_number_info|if \(current", "error_context:mudlib_error_handler")),
+            ("srcPushControl", L(R("src/frame.c"), "void push_control_stack (int frkind) {", "csp->pc = pc;", r"csp", "frame:push_control_stack")),
+        ]
+
     def gen_extra(self, ctx, bdir):
         """the guards of the three scan loops, transcribed from the source (regex over the function bodies)"""
         prog = open(os.path.join(E.REPO, "lib/lpc/program.c")).read()
@@ -563,7 +686,22 @@ class C18(Prop):
         m3 = re.search(r"sz\s*-=\s*(\d+)\s*;", sb)
         if not (m and m2 and m3):
             raise X.TieBroken("switch_to_line:split", "the run split loop no longer has the shape while (sz OP N) { *p++ = N; ... sz -= N; }")
+        ap = open(os.path.join(E.REPO, "src/apply.c")).read()
+        ab = self._body(ap, "\nint apply_low (", "apply_low")
+        stores = [(m.start(), m.group(1).strip()) for m in re.finditer(r"csp->fr\.table_index\s*=\s*([^;]+);", ab)]
+        cut = ab.find("APPLY_CACHE miss")
+        if len(stores) != 2 or cut < 0 or not (stores[0][0] < cut < stores[1][0]):
+            raise X.TieBroken("apply_low:table_index", "apply_low no longer stores fr.table_index once on the cache-hit and once on the cache-miss path")
+        IDX = {"entry->index": "ei", "index": "ei", "funp->runtime_index": "ri", "entry->progp->function_table[entry->index].runtime_index": "ri"}
+        for _, e in stores:
+            if e not in IDX:
+                raise X.TieBroken("apply_low:table_index", "unknown expression stored into fr.table_index: %s" % e)
         out = []
+        out.append("/-- C (src/apply.c apply_low, cache HIT): `csp->fr.table_index = %s;` — `ei` = function-table index kept in the\n"
+                   "    cache entry, `ri` = the function's runtime index -/" % stores[0][1])
+        out.append("def hitIndex (ei ri : Nat) : Nat := %s" % IDX[stores[0][1]])
+        out.append("/-- C (src/apply.c apply_low, cache MISS): `csp->fr.table_index = %s;` -/" % stores[1][1])
+        out.append("def missIndex (ei ri : Nat) : Nat := %s" % IDX[stores[1][1]])
         out.append("/-- C (lib/lpc/program.c, first pass of translate_absolute_line): `%s` — does the scan go on to the next\n"
                    "    segment when `a` lines are left and the segment has `b` lines? -/" % c1)
         out.append("def pass1Continues (a : Int) (b : Int) : Bool := decide (%s)" % g1)
@@ -574,11 +712,17 @@ class C18(Prop):
         out.append("def splitBound : Nat := %s" % m.group(2))
         out.append("def splitLen : Nat := %s" % m2[0])
         out.append("def splitDec : Nat := %s" % m3.group(1))
+        out.append("\n/-! the statements the model was written from, as they are in the source now -/")
+        for name, lines in self.source_statements():
+            out.append("def %s : List String := [\n  %s]" % (name, ",\n  ".join('"%s"' % l.replace("\\", "\\\\").replace('"', '\\"') for l in lines)))
         return "\n".join(out)
 
     def prepare(self, ctx):
         self.exe = E.compile_harness("c18", [os.path.join(E.VERIF, "harness/c18/c18.c")])
         self.conf = E.make_mudlib(ctx.rundir, master="/c18/master.c", extra_conf="SaveBinaryDir /bin\n")
+        t = open(self.conf).read()
+        t = re.sub(r"(?m)^SimulEfunFile\s+\S+", "SimulEfunFile   /c18/simul_efun.c", t)
+        open(self.conf, "w").write(t)
 
     def canon(self, lines):
         # a recoverable UBSan `pointer-overflow` report of binaries.c:locate_in (`ADD (prog->inherit, prog)` on a program
@@ -620,7 +764,8 @@ class C18(Prop):
                 out.append(E.Case("g%d" % i, case_multi_include(tag, v, rng), {"fail": "reinclude", "origin": "generated"}))
                 continue
             if rng.chance(1, 20):
-                out.append(E.Case("g%d" % i, case_init(tag, pad=rng.range(0, 300), funcs=rng.range(0, 4)),
+                out.append(E.Case("g%d" % i, case_init_pair(tag, pad=rng.range(0, 300)) if rng.chance(1, 3) else
+                                  case_init(tag, pad=rng.range(0, 300), funcs=rng.range(0, 4)),
                                   {"fail": "init", "origin": "generated"}))
                 continue
             big = rng.chance(1, 12) if tier != "thorough" else rng.chance(1, 10)
@@ -639,6 +784,8 @@ class C18(Prop):
             g = Gen(rng, "b_" + name.replace("-", "_"))
             kw.setdefault("other", False)
             kw.setdefault("override", False)
+            kw.setdefault("via", "apply")
+            kw.setdefault("rep", 1)
             lines = g.build(**kw)
             mk(name, lines, **g.meta)
 
@@ -680,6 +827,10 @@ class C18(Prop):
         for i, (name, kw) in enumerate(LL):
             kw.setdefault("binary", False)
             gen("lastline-" + name, fail_kind=("div", "error", "index", "funlit")[i % 4], **kw)
+        # the scenario run 2 and 3 times in one driver (frames through the apply-cache HIT path) and started by the driver
+        for i, (via, rep) in enumerate((("apply", 2), ("apply", 3), ("reset", 2), ("hb", 2), ("callout", 2), ("clone", 2), ("clone", 3))):
+            gen("again-%s-%d" % (via, rep), fail_kind=("div", "error", "funlit")[i % 3], depth=i % 3, nchild=3, nbase=i % 2 * 2,
+                bdepth=1, binary=(i % 2 == 0), via=via, rep=rep, other=(i == 1), override=(i == 3))
         # inherited programs reached through `::` and through call_other, fresh and from the saved binaries
         for i, k in enumerate(("div", "funlit2", "error")):
             gen("override-%d" % i, fail_kind=k, depth=i, bdepth=1, nchild=2, nbase=2, binary=(i != 1), override=True)
@@ -687,10 +838,12 @@ class C18(Prop):
         gen("other-plain", fail_kind="funlitml", depth=2, nchild=3, nbase=0, binary=True, other=True)
         g = Gen(rng, "b_wide")
         mk("wide70000", g.build(fail_kind="div", depth=0, nchild=1, nbase=0, binary=False, prepad=("n", 70000), kind="wide",
-                                other=False, override=False),
+                                other=False, override=False, via="apply", rep=1),
            **g.meta)
         mk("init", case_init("b_init"), fail="init")
         mk("init-after-functions", case_init("b_init2", pad=40, funcs=3), fail="init")
+        mk("init-after-other-compile", case_init_pair("b_init3", pad=3), fail="init")
+        mk("init-after-other-compile-far", case_init_pair("b_init4", pad=300), fail="init")
         for v in ("again", "self", "back"):
             mk("multi-include-" + v, case_multi_include("b_mi_" + v, v), fail="reinclude")
             mk("multi-include-pad-" + v, case_multi_include("b_mip_" + v, v, rng), fail="reinclude")
@@ -698,10 +851,18 @@ class C18(Prop):
         mk("reinclude-first", case_reinclude("b_reinc1", first_ok=True), fail="reinclude-first")
         return B
 
+    def extra_checks(self, ctx, tier, rng):
+        """the oracle's own positive / negative examples (lean/NV/C18/OracleTests.lean)"""
+        p = E.run([E.nvdrive_exe(), "C18", "selftest"])
+        if p.returncode == 0 and p.stdout.startswith("selftest ok"):
+            self.selftest = p.stdout.strip()
+            return []
+        return [{"kind": "obligation-broken", "name": "oracle-selftest", "detail": (p.stdout + p.stderr)[-500:]}]
+
     def histogram(self, cases, impl):
         h = {"binary_all_reloaded_from_binary": 0, "binary_some_recompiled": 0, "fail": {}, "calls": {}, "depth": {}, "slots": {}, "inherit": 0, "binary": 0, "caught": 0, "long": 0,
              "maxline_ge_255": 0, "maxline_ge_32768": 0, "eh_lines": 0, "other": 0, "override": 0,
-             "lastline": {}, "files_without_final_newline": 0}
+             "lastline": {}, "files_without_final_newline": 0, "via": {}, "rep": {}}
         for c in cases:
             m = c.meta
             if "fail" in m:
@@ -712,6 +873,9 @@ class C18(Prop):
                 h["slots"][k] = h["slots"].get(k, 0) + 1
             if "depth" in m:
                 h["depth"][str(m["depth"])] = h["depth"].get(str(m["depth"]), 0) + 1
+            for k in ("via", "rep"):
+                if k in m:
+                    h[k][str(m[k])] = h[k].get(str(m[k]), 0) + 1
             for k in m.get("lastline", []):
                 h["lastline"][k] = h["lastline"].get(k, 0) + 1
             h["files_without_final_newline"] += len(m.get("nonl", []))
